@@ -329,7 +329,7 @@ func init() {
 			}
 			return "", fmt.Sprintf("ok err=%v", err != nil), human
 		}}
-	ops["capitalize"] = &op{shrink: 0,
+	ops["capitalize"] = &op{model: true, shrink: 0,
 		nontrivial: func(a []string) bool { s := unhex(a[0]); return builtin.CapitalizeAll(s) != s },
 		run: func(a []string) (string, string, string) {
 			s := unhex(a[0])
@@ -337,6 +337,10 @@ func init() {
 			var out string
 			if p := guard(func() { out = builtin.Capitalize(s) }); p != nil {
 				return "Capitalize-panics", panicLine(p), human
+			}
+			var again string
+			if p := guard(func() { again = builtin.Capitalize(out) }); p != nil || again != out {
+				return "Capitalize-idempotent", okHex(out), human
 			}
 			// documented: a copy of s with the first non-separator in upper case — so everything
 			// before and after that rune is preserved, and the rune is replaced by its upper case
@@ -359,7 +363,7 @@ func init() {
 			}
 			return "", okHex(out), human
 		}}
-	ops["capitalizeall"] = &op{shrink: 0,
+	ops["capitalizeall"] = &op{model: true, shrink: 0,
 		nontrivial: func(a []string) bool { s := unhex(a[0]); return builtin.CapitalizeAll(s) != s },
 		run: func(a []string) (string, string, string) {
 			s := unhex(a[0])
@@ -381,9 +385,12 @@ func init() {
 			if out != want {
 				return "CapitalizeAll-first-letters", okHex(out), human
 			}
+			if builtin.CapitalizeAll(out) != out {
+				return "CapitalizeAll-idempotent", okHex(out), human
+			}
 			return "", okHex(out), human
 		}}
-	ops["tokebab"] = &op{shrink: 0,
+	ops["tokebab"] = &op{model: true, shrink: 0,
 		nontrivial: func(a []string) bool { s := unhex(a[0]); return builtin.ToKebab(s) != s },
 		run: func(a []string) (string, string, string) {
 			s := unhex(a[0])
@@ -401,6 +408,54 @@ func init() {
 				}
 			}
 			return "", okHex(out), human
+		}}
+	ops["reverse"] = &op{model: true, shrink: 0,
+		nontrivial: func(a []string) bool { return len(unhex(a[0])) > 1 },
+		run: func(a []string) (string, string, string) {
+			s := unhex(a[0])
+			human := fmt.Sprintf("Reverse([]byte(%q))", s)
+			b := []byte(s)
+			if p := guard(func() { builtin.Reverse(b) }); p != nil {
+				return "Reverse-panics", panicLine(p), human
+			}
+			for i := range b {
+				if b[i] != s[len(s)-1-i] {
+					return "Reverse-result", okHex(string(b)), human
+				}
+			}
+			return "", okHex(string(b)), human
+		}}
+	ops["formatfloat"] = &op{model: true, shrink: 0,
+		nontrivial: func(a []string) bool { return true },
+		run: func(a []string) (string, string, string) {
+			format := unhex(a[0])
+			human := fmt.Sprintf("FormatFloat(1.5, %q, 2)", format)
+			var out string
+			p := guard(func() { out = builtin.FormatFloat(1.5, format, 2) })
+			valid := format == "e" || format == "f" || format == "g"
+			if p != nil {
+				// documented: "If the format or the precision is not valid, FormatFloat panics" (with its own message)
+				if valid || panicText(p) != "formatFloat: invalid format "+strconv.Quote(format) {
+					return "FormatFloat-undocumented-panic", panicLine(p), human
+				}
+				return "", "ok documented-panic", human
+			}
+			if !valid || out != strconv.FormatFloat(1.5, format[0], 2, 64) {
+				return "FormatFloat-result", okHex(out), human
+			}
+			return "", okHex(format[:1]), human
+		}}
+	ops["indentjsondoc"] = &op{shrink: -1, // the rule as IndentJSON documents it: only ' ' and '\t' in prefix/indent
+		nontrivial: func(a []string) bool { return true },
+		run: func(a []string) (string, string, string) {
+			data, prefix, indent := unhex(a[0]), unhex(a[1]), unhex(a[2])
+			human := fmt.Sprintf("IndentJSON(%q, %q, %q)", data, prefix, indent)
+			var out native.JSON
+			p := guard(func() { out = builtin.IndentJSON(native.JSON(data), prefix, indent) })
+			if strings.Trim(prefix+indent, " \t") != "" && p == nil {
+				return "IndentJSON-documented-prefix-rule", okHex(string(out)), human
+			}
+			return "", "ok", human
 		}}
 	ops["w"] = &op{shrink: -1, // w <wrapper> <arg>… : thin stdlib wrapper vs the stdlib itself
 		nontrivial: func(a []string) bool { return true },
@@ -704,6 +759,18 @@ func (g *gen) str(maxLen int) string {
 	return string(b)
 }
 
+// caseString: words in mixed case with runes whose case mappings change the encoded length,
+// title-case digraphs, separators of several kinds, some ill-formed bytes.
+func (g *gen) caseString() string {
+	pieces := []string{"a", "b", "Z", "Q", "x1", "9", "_", " ", "-", ".", "\t", "é", "É", "ı", "İ", "ɐ", "Ɐ", "ſ", "ǆ", "ǅ", "Ǆ", "ß", "ẞ", "ﬁ", "ω", "Ω",
+		"K", "\u00a0", "\u2028", "٣", "中", "😀", "\xff", "\xc3", "\xe2\x82", "\ufffd", "fooBar", "HTTPServer", "snake_case"}
+	var b strings.Builder
+	for n := g.r.Intn(7); n >= 0; n-- {
+		b.WriteString(pieces[g.r.Intn(len(pieces))])
+	}
+	return b.String()
+}
+
 func (g *gen) hexString(maxLen int) string { return proto.Hex([]byte(g.str(maxLen))) }
 
 // related: a second argument that has a chance to occur in s (substring, cutset, prefix …).
@@ -771,6 +838,38 @@ func (g *gen) floatBits() uint64 {
 
 // ---------------------------------------------------------------------------------------------
 
+// unicodeTable renders package unicode's answers for the runes of s (and for ' ' and U+FFFD):
+// `cp.flags.upper.lower`, flags: 1 lower, 2 upper, 4 digit, 8 letter, 16 space. They instantiate
+// the parameter U of the Lean models of Capitalize, CapitalizeAll and ToKebab.
+func unicodeTable(s string) string {
+	seen := map[rune]bool{}
+	var parts []string
+	for _, r := range append([]rune(s), ' ', utf8.RuneError) {
+		if seen[r] {
+			continue
+		}
+		seen[r] = true
+		flags := 0
+		for i, f := range []func(rune) bool{unicode.IsLower, unicode.IsUpper, unicode.IsDigit, unicode.IsLetter, unicode.IsSpace} {
+			if f(r) {
+				flags |= 1 << i
+			}
+		}
+		parts = append(parts, fmt.Sprintf("%d.%d.%d.%d", r, flags, unicode.ToUpper(r), unicode.ToLower(r)))
+	}
+	return strings.Join(parts, ",")
+}
+
+// modelLine is the line sent to the Lean driver for a case line.
+func modelLine(l string) string {
+	f := strings.Fields(l)
+	switch f[1] {
+	case "capitalize", "capitalizeall", "tokebab":
+		return strings.Join(f[:3], " ") + " " + unicodeTable(unhex(f[2]))
+	}
+	return l
+}
+
 func line(opName string, args ...string) string {
 	return "C25 " + opName + " " + strings.Join(args, " ")
 }
@@ -822,6 +921,16 @@ func run(c *hx.Ctx) error {
 		}
 	}
 
+	// recorded findings: replay the minimal input; still failing -> reported under its id
+	for _, f := range c.Findings {
+		if _, _, clause, impl, human, err := evalLine(f.Minimal); err == nil && clause != "" {
+			res.AddBreak(proto.Break{Kind: "property", Name: clause, Case: f.Minimal, Human: human, Impl: impl, Finding: f.ID})
+		}
+	}
+	if err := unicodeHypotheses(res); err != nil {
+		return err
+	}
+
 	var cases []string
 	add := func(opName string, args ...string) { cases = append(cases, line(opName, args...)) }
 
@@ -846,6 +955,12 @@ func run(c *hx.Ctx) error {
 		add("mji", "0", "-", h)
 		add("indentjson", h, "-", "-")
 		add("capitalize", h)
+		add("capitalizeall", h)
+		add("tokebab", h)
+		add("formatfloat", h)
+	}
+	for _, f := range []string{"", "e", "f", "g", "G", "ee", "ef", "x", "g ", "\x00"} {
+		add("formatfloat", proto.Hex([]byte(f)))
 	}
 	var small func(alpha []byte, maxLen int, f func(s []byte))
 	small = func(alpha []byte, maxLen int, f func(s []byte)) {
@@ -867,6 +982,12 @@ func run(c *hx.Ctx) error {
 		add("trim", proto.Hex(s))
 	})
 	small([]byte{' ', '\r', '1', 0xff}, 3, func(s []byte) { add("indentjson", proto.Hex(s), "-", "-") })
+	small([]byte{'a', 'B', ' ', '-', 0xff}, c.N(5, 6), func(s []byte) {
+		add("capitalize", proto.Hex(s))
+		add("capitalizeall", proto.Hex(s))
+		add("tokebab", proto.Hex(s))
+	})
+	small([]byte{1, 2, 3}, 6, func(s []byte) { add("reverse", proto.Hex(s)) })
 	abbrAlpha := []string{"a", " ", ".", "é", "\xff"}
 	var abbrRec func(p string, l int)
 	abbrRec = func(p string, l int) {
@@ -891,6 +1012,12 @@ func run(c *hx.Ctx) error {
 		add("capitalize", h)
 		add("capitalizeall", h)
 		add("tokebab", h)
+		if i%4 == 0 {
+			add("reverse", h)
+			add("capitalize", proto.Hex([]byte(g.caseString())))
+			add("capitalizeall", proto.Hex([]byte(g.caseString())))
+			add("tokebab", proto.Hex([]byte(g.caseString())))
+		}
 		// Abbreviate: n around the interesting thresholds
 		t := strings.TrimRight(s, abbrSpaces)
 		rc := utf8.RuneCountInString(t)
@@ -952,7 +1079,11 @@ func run(c *hx.Ctx) error {
 				lines = append(lines, l)
 			}
 		}
-		ans, err := c.D.Batch(lines)
+		sent := make([]string, len(lines))
+		for i, l := range lines {
+			sent[i] = modelLine(l)
+		}
+		ans, err := c.D.Batch(sent)
 		if err != nil {
 			return err
 		}
@@ -997,6 +1128,38 @@ func run(c *hx.Ctx) error {
 	}
 
 	return specValidation(c, g)
+}
+
+// unicodeHypotheses checks, over every rune, what the Lean theorems assume of package unicode
+// (KebabUnicodeOK, UpperStable, validity preservation, U+FFFD is not a separator).
+func unicodeHypotheses(res *proto.Result) error {
+	bad := func(name string, r rune) {
+		res.AddBreak(proto.Break{Kind: "correspondence", Name: "spec-validation unicode hypothesis " + name,
+			Case: fmt.Sprintf("rune U+%04X", r), Impl: "does not hold", Model: "assumed by the theorem"})
+	}
+	for r := rune(0); r <= unicode.MaxRune; r++ {
+		if r >= 0xD800 && r <= 0xDFFF {
+			continue
+		}
+		up, lo := unicode.ToUpper(r), unicode.ToLower(r)
+		if (unicode.IsLower(r) || unicode.IsDigit(r)) && r == '-' || unicode.IsUpper(r) && lo == '-' {
+			bad("KebabUnicodeOK", r)
+		}
+		if unicode.ToUpper(up) != up {
+			bad("UpperStable.1 (ToUpper idempotent)", r)
+		}
+		if refIsSeparator(up) != refIsSeparator(r) {
+			bad("UpperStable.2 (ToUpper keeps separator-ness)", r)
+		}
+		if !utf8.ValidRune(up) {
+			bad("ToUpper keeps validity", r)
+		}
+		res.SpecChecks["unicode-hypotheses-per-rune"]++
+	}
+	if refIsSeparator(utf8.RuneError) {
+		bad("U+FFFD is not a separator", utf8.RuneError)
+	}
+	return nil
 }
 
 // specValidation compares the Lean specifications and stdlib-helper models with the stdlib.
@@ -1058,6 +1221,10 @@ func specValidation(c *hx.Ctx, g *gen) error {
 		}
 		add("runes=unicode/utf8", line("runes", proto.Hex([]byte(s))), w)
 		add("trimRight=strings.TrimRight", line("trimright", proto.Hex([]byte(s))), okHex(strings.TrimRight(s, abbrSpaces)))
+		r, size := utf8.DecodeRuneInString(s)
+		add("Utf8.decodeRune=utf8.DecodeRuneInString", line("decoderune", proto.Hex([]byte(s))), fmt.Sprintf("ok %d %d", r, size))
+		cp := []int{g.r.Intn(0x80), g.r.Intn(0x800), g.r.Intn(0x10000), g.r.Intn(0x120000), 0xD800 + g.r.Intn(0x800), 0xFFFD, 0x10FFFF, 0x110000}[g.r.Intn(8)]
+		add("Utf8.encodeRune=utf8.AppendRune", line("encoderune", strconv.Itoa(cp)), okHex(string(utf8.AppendRune(nil, rune(cp)))))
 		add("lastIndexAny=strings.LastIndexAny", line("lastindexany", proto.Hex([]byte(s))), okInt(strings.LastIndexAny(s, abbrSpaces)))
 	}
 	ans, err := c.D.Batch(lines)
@@ -1099,7 +1266,7 @@ func replay(c *hx.Ctx) error {
 		c.Res.Count(l, o.nontrivial(args))
 		m := ""
 		if c.D != nil && o.model {
-			if m, err = c.D.Ask(l); err != nil {
+			if m, err = c.D.Ask(modelLine(l)); err != nil {
 				return err
 			}
 		}
